@@ -8,8 +8,10 @@
 -/
 namespace SonicSpec.RW
 
-/-- fields of `ast.Node` (ast/node.go:57): `t types.ValueType`, `l uint`, `p unsafe.Pointer`, `m *sync.RWMutex` -/
-inductive Fld | t | l | p | m
+/-- fields of `ast.Node` (ast/node.go:57): `t types.ValueType`, `l uint`, `p unsafe.Pointer`, `m *sync.RWMutex`;
+    `c` = the memory reachable through `p` once the node is parsed: the children container
+    (linkedNodes / linkedPairs: chunks, size, hash index) and the freshly created child nodes in it -/
+inductive Fld | t | l | p | m | c
   deriving DecidableEq, Repr
 
 inductive MOp | Lock | Unlock | RLock | RUnlock
@@ -57,6 +59,8 @@ inductive Ev
   | mkMutex                         -- x.m = new(sync.RWMutex)
   | escape (fn : String)            -- the receiver pointer handed to a non-method function
   | valueRecv                       -- first event of a by-value receiver method (receiver is a copy)
+  | parse                           -- parser.Parse()/decodeArray/decodeObject on a local parser: builds the children
+  | gotoFwd | label                 -- forward goto (flattened as fall-through) and its target
   deriving DecidableEq, Repr
 
 end SonicSpec.RW
